@@ -16,6 +16,18 @@ critic outputs of shape (N,) and (N,1), and through one SGD(lr=1) step of the
 real update functions.  With the repository's own heads (softmax, Gaussian,
 tanh-Gaussian, deterministic tanh, SALE actor) gradient support and sign are
 checked, and one real Adam step of the entropy coefficient for its direction.
+
+spec/ActorEpochs.tla specifies the USE of the PPO objective over several epochs
+(update_ppo) as a state machine: advantages, returns and the reference
+log-probabilities are fixed at entry, every epoch is one SGD step of actor and
+critic on Actor.tla's ppo_loss(theta_k; reference).  TLC decides per sample and
+epoch on which side of the clip range the ratio pi_theta_k / pi_theta_0 lies
+(exact rationals, outward rounded enclosures of exp after a step at a ratio
+other than 1) and proves that a sample clipped on the side its advantage favours
+gets coefficient 0.  The real update_ppo(epochs=j), j = 1..K, is run from
+identical entry parameters and compared with the model's state after every
+epoch; with the repository's own networks update_ppo(epochs=K) is compared with
+the model's schedule executed step by step with the real ppo_loss.
 """
 from __future__ import annotations
 
@@ -32,9 +44,9 @@ from .. import exact, stubs, tlc
 LEVEL = "model_checking"
 MANIFEST = dict(
     category="model_checking",
-    text="Actor.tla transcribes every actor objective of rl_blox (policy-gradient pseudo-loss with the REINFORCE / actor-critic / A2C weights, PPO clipped surrogate + value term + entropy bonus, deterministic policy gradient of DDPG / TD7 / MR.Q, SAC actor loss, SAC temperature loss) on exact rationals together with its per-sample derivative and the set of parameter groups an update can move; TLC proves on the model, for every batch of the lattice, that the weights are constants, that the PPO gradient at ratio 1 is the unclipped one and vanishes for samples clipped on the side their advantage favours, that the emitted derivatives are the derivatives of the objective (exact central differences), that every objective is a mean of per-sample terms, and that alpha rises exactly when the entropy estimate is below target; it refutes seven named deviations. Every TLC-generated vector (exhaustive small lattice + seeded random walks over the full lattice, batch sizes 1-4) is realised with table-lookup stub modules that have one parameter per sample and replayed into the REAL functions; objective values and jax gradients w.r.t. actor, critic / value function / baseline / Q / alpha parameters are compared with TLC's numbers exactly (ulp bounds only where exp/log, 0.01, tanh or a mean over 3 rows make float32 inexact), with critic outputs of shape (N,) and (N,1), and again through one SGD(lr=1) step of the real update functions (only the intended parameters move). Function-level properties over all inputs cannot be exhausted, so model checking of the documented arithmetic plus exact replay is the right level.",
-    note="bounded dyadic lattices, batch size <= 4; network forward passes are inputs (stubs); the repository's heads (softmax, Gaussian, tanh-Gaussian, deterministic tanh, SALE actor) only for gradient support and sign; GAE inside update_ppo only with all rows terminated; update_critic_and_policy (MR.Q) not driven; trusted: harness/stubs.py, harness/stubs_actor.py realisation, Exact.tla, TLC",
-    technique="TLA+ spec + TLC (exhaustive invariants on the model, deviation canaries, vector generation); replay of TLC-generated vectors into the real actor losses / policy-gradient functions / actor update steps with stub nnx modules, exact value and gradient comparison",
+    text="Actor.tla transcribes every actor objective of rl_blox (policy-gradient pseudo-loss with the REINFORCE / actor-critic / A2C weights, PPO clipped surrogate + value term + entropy bonus, deterministic policy gradient of DDPG / TD7 / MR.Q, SAC actor loss, SAC temperature loss) on exact rationals together with its per-sample derivative and the set of parameter groups an update can move; TLC proves on the model, for every batch of the lattice, that the weights are constants, that the PPO gradient at ratio 1 is the unclipped one and vanishes for samples clipped on the side their advantage favours, that the emitted derivatives are the derivatives of the objective (exact central differences), that every objective is a mean of per-sample terms, and that alpha rises exactly when the entropy estimate is below target; it refutes seven named deviations. Every TLC-generated vector (exhaustive small lattice + seeded random walks over the full lattice, batch sizes 1-4) is realised with table-lookup stub modules that have one parameter per sample and replayed into the REAL functions; objective values and jax gradients w.r.t. actor, critic / value function / baseline / Q / alpha parameters are compared with TLC's numbers exactly (ulp bounds only where exp/log, 0.01, tanh or a mean over 3 rows make float32 inexact), with critic outputs of shape (N,) and (N,1), and again through one SGD(lr=1) step of the real update functions (only the intended parameters move). ActorEpochs.tla specifies update_ppo with 1-4 epochs as a state machine (advantages, returns and reference log-probabilities fixed at entry; epoch k = one SGD step of actor and critic on Actor.tla's objective at theta_k with that reference); TLC proves on every schedule of the lattice that the reference stays the entry one, that the first epoch has the unclipped gradient, and that in epoch k a sample whose ratio pi_theta_k / pi_theta_0 is clipped on the side its advantage favours has policy-gradient coefficient 0 and does not move, and refutes the deviation 'reference re-read from the updated actor in every epoch'; the real update_ppo(epochs=j) is run for j = 1..K from identical entry parameters (per-sample table policy, SGD with dyadic learning rates) and log-probabilities, critic predictions, entropy parameters and the returned objective are compared with the model's state after EVERY epoch - exactly where the model's state is an exact rational (all samples clipped or at ratio 1), within a counted ulp budget where a step was taken at ratio exp(d). Function-level properties over all inputs cannot be exhausted, so model checking of the documented arithmetic plus exact replay is the right level.",
+    note="bounded dyadic lattices, batch size <= 4; network forward passes are inputs (stubs); the repository's heads (softmax, Gaussian, tanh-Gaussian, deterministic tanh, SALE actor) only for gradient support and sign; GAE inside update_ppo only with all rows terminated; update_ppo over epochs: per-sample table policy only (no shared actor parameters), plain SGD, default clip range 0.2, <= 4 epochs, batch size <= 4; update_critic_and_policy (MR.Q) not driven; trusted: harness/stubs.py, harness/stubs_actor.py realisation, Exact.tla, TLC",
+    technique="TLA+ spec + TLC (exhaustive invariants on the model, deviation canaries, vector generation); replay of TLC-generated vectors into the real actor losses / policy-gradient functions / actor update steps with stub nnx modules, exact value and gradient comparison; ActorEpochs.tla: state machine of update_ppo over epochs, TLC-emitted schedules (region of every sample per epoch, step coefficients, critic states) replayed into the real update_ppo(epochs=1..K) and compared after every epoch",
 )
 
 INVS = [
@@ -769,7 +781,8 @@ def check_update(c: Case, outs, moved, rep, stats):
 
 # ----------------------------------------------------------------- replaying vectors
 def new_stats():
-    return {"fn": 0, "upd": 0, "per_kind": {}, "batch1": {}, "failed": set(), "bc": 0, "kinks": 0, "ties": 0, "real": {}}
+    return {"fn": 0, "upd": 0, "per_kind": {}, "batch1": {}, "failed": set(), "bc": 0, "kinks": 0, "ties": 0, "real": {},
+            "ep_eval": 0, "ep_runs": 0, "ep_classes": set(), "ep_clipped": 0}
 
 
 def canon(vec):
@@ -1114,6 +1127,401 @@ def real_heads(rep, vectors, stats, scale=1):
     return sum(count.values())
 
 
+# ----------------------------------------------------------------- update_ppo over several epochs (spec/ActorEpochs.tla)
+EP_INVS = ["EpTypeOK", "EpDecidable", "EpRefFixed", "EpClippedZero", "EpFirstUnclipped", "EpObjective", "EpAbsorbing", "EpCritic"]
+EP = "update_ppo:epochs"
+EP_CLIPPED_KEY = f"{EP}:clipped_gradient"
+# float32 budget per epoch that took a step at a ratio other than 1: exp of the float32 log-ratio (<= 2 ulp of a ratio <= 1.25
+# times a step <= 1/4 of the parameter), three products (1/N, advantage, learning rate) at the size of the step, one rounding of
+# the parameter itself, and the error of the previous displacement carried through exp (factor |c| * ratio < 1/3): <= 5 ulp of a step that is
+# at most half the parameter scale, + 1 + carry                                                                        -> 4 ulp of the parameter
+ULP_EPOCH = 4
+# returned objective after the first epoch: float32 difference of two log-probabilities of size <= 4 (<= 4 ulp of the ratio), exp (2), product with
+# the advantage / the float32 clip bound 1.2f, mean, 0.5 * value term, 0.01 * entropy (2 roundings each)                                   -> 16
+ULP_EP_LOSS = 16
+REGION_LETTER = {"one": "1", "above": "A", "below": "B", "in_up": "u", "in_dn": "d"}
+
+
+def region_hist(vec, i):
+    """Region history of sample i, e.g. '1uA' = ratio 1, then inside above 1, then clipped above."""
+    return "".join(REGION_LETTER.get(h["region"][i], "?") for h in vec["hist"])
+
+
+def _sgd(module, lr):
+    """nnx.Optimizer with plain SGD whose learning rate is a LEAF of the optimiser state (optax.inject_hyperparams): one
+    transformation object for every learning rate of the lattice, so update_ppo is compiled once per shape and epoch count."""
+    jax, jnp, nnx = _lazy()
+    import optax
+
+    if "sgd_h" not in _TX:
+        _TX["sgd_h"] = optax.inject_hyperparams(optax.sgd)(learning_rate=1.0)
+    opt = nnx.Optimizer(module, _TX["sgd_h"], wrt=nnx.Param)
+    opt.opt_state.hyperparams["learning_rate"].value = jnp.asarray(lr, dtype=jnp.float32)
+    return opt
+
+
+def realise_epochs(vec, fill_seed, vshape="n1") -> Case:
+    """Entry parameters theta_0 of ActorEpochs.tla: per-sample log-probability / entropy / value tables, the sampled actions are 0
+    so that the shared slope `c` of the stub policy receives no gradient and every sample has its own parameters."""
+    rng = np.random.default_rng(list(fill_seed))
+    n, rows = vec["n"], vec["rows"]
+    S = n + 1
+    c = Case(vec=vec, kind="ppoep", n=n, vshape=vshape, fill_seed=tuple(fill_seed), leaves=[], arrays={}, groups=["actor", "critic"])
+    pol = {"lp": fill(rng, (S,)), "c": fill(rng, (1,)), "ent": fill(rng, (S,)), "actions": fill(rng, (S, 1)), "vtable": fill(rng, (S, 1))}
+    V = fill(rng, (S, 1))
+    for i, r in enumerate(rows):
+        pol["ent"][i] = fl(r["ent"])
+        V[i, 0] = fl(r["v"])
+    c.leaves = [pol, {"kernel": V}]
+    c.arrays = dict(obs=stubs.onehot(np.arange(n), S), act=np.zeros((n, 1), dtype=np.float32), reward=f32([fl(r["r"]) for r in rows]),
+                    term=np.ones(n, dtype=np.float32), nval=fill(rng, (n,)))
+    c.aux["lra"], c.aux["lrc"] = fl(vec["par"]["lra"]), fl(vec["par"]["lrc"])
+    return c
+
+
+def run_epochs(c: Case, epochs: int):
+    """The REAL update_ppo(epochs=...) from the entry parameters; returns (returned loss, [leaf dict per module])."""
+    jax, jnp, nnx = _lazy()
+    from rl_blox.algorithm.ppo import update_ppo
+
+    mods = build_modules(Case(vec=c.vec, kind="ppoupd", n=c.n, vshape=c.vshape, fill_seed=c.fill_seed, leaves=c.leaves, arrays=c.arrays, groups=c.groups))
+    a = {kk: jnp.asarray(v) for kk, v in c.arrays.items()}
+    loss = update_ppo(mods[0], mods[1], _sgd(mods[0], c.aux["lra"]), _sgd(mods[1], c.aux["lrc"]), a["obs"], a["act"], a["reward"], a["term"], a["nval"], epochs=epochs)
+    return np.asarray(loss), [leafdict(nnx.state(m)) for m in mods]
+
+
+def probe_reference(c: Case, epochs: int):
+    """Diagnostic only: run update_ppo eagerly with the module-level name ppo_loss interposed and record the `old_logps` each
+    epoch hands to the objective.  Returns (entry log-probabilities, [reference of epoch 1, 2, ...]) or None."""
+    jax, jnp, nnx = _lazy()
+    import rl_blox.algorithm.ppo as P
+
+    rec = []
+    orig = P.ppo_loss
+
+    def spy(actor, critic, old_logps, *args, **kw):
+        try:
+            rec.append(np.asarray(old_logps, dtype=np.float64).tolist())
+        except Exception:
+            rec.append(None)
+        return orig(actor, critic, old_logps, *args, **kw)
+
+    try:
+        P.ppo_loss = spy
+        with jax.disable_jit():
+            run_epochs(c, epochs)
+    except Exception:
+        return None
+    finally:
+        P.ppo_loss = orig
+    entry = (np.asarray(c.leaves[0]["lp"], dtype=np.float64)[: c.n]).tolist()  # actions are 0: log pi_theta_0(a_i|o_i) = lp[i]
+    return entry, rec
+
+
+def _ulp_ok(got, want, ulps, mag):
+    got, want = float(got), float(want)
+    if got == want:
+        return True
+    return bool(ulps) and math.isfinite(got) and abs(got - want) <= ulps * spacing32(max(abs(mag), abs(want)))
+
+
+def check_epochs(c: Case, results, rep, stats, probe=True):
+    """results[j-1] = (loss, leaves) of update_ppo(epochs=j), j = 1..K, all from the same entry parameters: the difference of two
+    consecutive results is the step of epoch j.  Everything is compared with the state ActorEpochs.tla reaches after epoch j."""
+    vec = c.vec
+    n, hist = vec["n"], vec["hist"]
+    F = int(vec["unit"])
+    dy = n in (1, 2, 4)  # 1/N and every step at ratio 1 are dyadic
+    lp0 = np.asarray(c.leaves[0]["lp"], dtype=np.float64)
+    ent0 = np.asarray(c.leaves[0]["ent"], dtype=np.float64)
+    dpy = [0.0] * n  # the linear forms c * Exp(log ratio) evaluated along the schedule (float64)
+    inex = [0] * n  # epochs in which sample i stepped at a ratio other than 1
+    ok = True
+    downstream = False  # the actor left the model's state: later actor states of this case are consequences, not compared
+
+    def info(j):
+        return {"vec": vec, "fill_seed": list(c.fill_seed), "vshape": c.vshape, "level": "epochs", "epoch": j}
+
+    def ctx(j):
+        par = vec["par"]
+        return (f"(update_ppo(epochs={j}) vs update_ppo(epochs={j - 1}); batch size {n}, SGD lr actor {fq(par['lra'])} critic {fq(par['lrc'])}, critic output shape "
+                f"{'(N,)' if c.vshape == 'n' else '(N,1)'}, advantages {[str(fq(x)) for x in seq(vec['adv'])]}, region of each sample per epoch {[region_hist(vec, i) for i in range(n)]})")
+
+    prev = [dict((kk, np.asarray(v, dtype=np.float32)) for kk, v in d.items()) for d in c.leaves]
+    for j, h in enumerate(hist, start=1):
+        if h["refk"] != "entry":
+            raise tlc.MachineryError("ActorEpochs: the emitted schedule does not use the entry reference")
+        loss, leaves = results[j - 1]
+        # ---- returned objective: that of the last epoch, at theta_{j-1}
+        lexp = fl(h["lconst"]) + (j - 1) * fl(h["lentk"])  # the entropy parameters have risen (j - 1) times
+        mag = abs(0.5 * fl(h["lval"])) + abs(0.01 * fl(h["lent"]))
+        for i in range(n):
+            co = fl(seq(h["lcoef"])[i])
+            lexp += co * math.exp(dpy[i])
+            mag += abs(fl(seq(h["sur"])[i])) * 1.25 / n
+        exact_loss = dy and j == 1 and fq(h["lent"]) == 0
+        stats["ep_eval"] += 1
+        if np.shape(loss) != () or not _ulp_ok(loss, lexp, 0 if exact_loss else (ULP_INEXACT if j == 1 else ULP_EP_LOSS + ULP_EPOCH * max(inex)), mag):
+            ok = False
+            rep.violation(f"{EP}:loss", f"update_ppo(epochs={j}) returned the objective {np.asarray(loss).tolist()!r}; specification (objective of epoch {j} at the parameters after {j - 1} epochs, reference = entry log-probabilities): {lexp!r} {ctx(j)}", info(j))
+        # ---- actor: per-sample log-probability table
+        lp = np.asarray(leaves[0]["lp"], dtype=np.float64)
+        plp = np.asarray(prev[0]["lp"], dtype=np.float64)
+        moved_clipped = [i for i in range(n) if h["fav"][i] and lp[i] != plp[i]] if not downstream else []
+        if moved_clipped:
+            ok = False
+            i = moved_clipped[0]
+            text = (f"update_ppo: in epoch {j} sample {i} (advantage {fq(seq(vec['adv'])[i])}) has log pi_theta_{j - 1} - log pi_theta_0 = {float(plp[i] - lp0[i])!r}, i.e. its ratio to the policy that entered the update "
+                    f"is {math.exp(float(plp[i] - lp0[i]))!r}, outside [0.8, 1.2] on the side its advantage favours; the specification gives it zero policy gradient, but epoch {j} moved its log-probability by {float(lp[i] - plp[i])!r}")
+            if probe and not stats.get("ep_probed"):
+                stats["ep_probed"] = True
+                pr = probe_reference(c, j)
+                if pr is not None and len(pr[1]) == j and pr[1][j - 1] is not None:
+                    if pr[1][j - 1] != pr[0]:
+                        text += (f"; ppo_loss was handed old_logps = {pr[1][j - 1]} in epoch {j}, the log-probabilities of the already updated actor, instead of the entry "
+                                 f"log-probabilities {pr[0]} (the reference is not held fixed over the epochs, so the ratio is 1 in every epoch and clipping never activates)")
+                    else:
+                        text += f"; ppo_loss was handed the entry log-probabilities {pr[0]} as old_logps in epoch {j}"
+            rep.violation(EP_CLIPPED_KEY, f"{text} {ctx(j)}", info(j))
+            downstream = True
+        for i in range(n):
+            co = fl(seq(h["c"])[i])
+            if h["expo"][i]:
+                dpy[i] = dpy[i] + co * math.exp(dpy[i])
+                inex[i] += 1
+            else:
+                dpy[i] = dpy[i] + co
+            a = seq(h["after"])[i]
+            if a["ex"]:
+                if Fraction(dpy[i]) != fq(a["q"]) and dy:
+                    raise tlc.MachineryError(f"ActorEpochs: exact displacement {fq(a['q'])} disagrees with the evaluated schedule {dpy[i]!r}")
+                dpy[i] = fl(a["q"])
+            elif not (a["lo"] / F <= dpy[i] <= a["hi"] / F):
+                raise tlc.MachineryError(f"ActorEpochs: evaluated linear form {dpy[i]!r} outside the model's enclosure [{a['lo'] / F}, {a['hi'] / F}]")
+        for i in range(n):
+            if downstream:
+                break
+            a = seq(h["after"])[i]
+            want = lp0[i] + dpy[i]
+            ul = ULP_EPOCH * inex[i] + (0 if dy else ULP_N3 * j)
+            slack = ul * spacing32(max(abs(lp0[i]), abs(want), 0.5))
+            encl_ok = a["ex"] or (a["lo"] / F - slack <= lp[i] - lp0[i] <= a["hi"] / F + slack)  # the model's own (coarse) enclosure
+            if not (_ulp_ok(lp[i], want, ul, max(abs(lp0[i]), 0.5)) and encl_ok):
+                ok = False
+                rep.violation(f"{EP}:step:actor", f"update_ppo: after epoch {j} sample {i} has log pi_theta_{j} - log pi_theta_0 = {float(lp[i] - lp0[i])!r}; specification {dpy[i]!r} "
+                              f"(step of epoch {j}: {fq(seq(h['c'])[i])} x {'ratio' if h['expo'][i] else '1'}, region '{h['region'][i]}') {ctx(j)}", info(j))
+                downstream = True
+                break
+        # ---- entropy table: -lr * d(-0.01 mean entropy)
+        ent = np.asarray(leaves[0]["ent"], dtype=np.float64)
+        es = fl(h["entstep"])
+        for i in range(n):
+            if not _ulp_ok(ent[i], ent0[i] + j * es, 4 * j, max(abs(ent0[i]), j * es)):
+                ok = False
+                rep.violation(f"{EP}:step:actor", f"update_ppo: after epoch {j} the entropy parameter of sample {i} is {float(ent[i])!r}; specification {float(ent0[i])!r} + {j} x {fq(h['entstep'])} {ctx(j)}", info(j))
+                break
+        # ---- critic: regression on the ENTRY returns
+        V = np.asarray(leaves[1]["kernel"], dtype=np.float64).reshape(-1)
+        for i in range(n):
+            want = fl(seq(h["v"])[i])
+            if not _ulp_ok(V[i], want, 0 if dy else ULP_N3 * j, max(abs(want), abs(fl(seq(vec["ret"])[i])))):
+                ok = False
+                rep.violation(f"{EP}:step:critic", f"update_ppo: after epoch {j} the critic predicts {float(V[i])!r} for sample {i}; specification {fq(seq(h['v'])[i])} (entry prediction {fq(vec['rows'][i]['v'])}, "
+                              f"return {fq(seq(vec['ret'])[i])} estimated once at entry) {ctx(j)}", info(j))
+                break
+        # ---- everything else is bit-identical to the entry parameters
+        for mi, d in enumerate(c.leaves):
+            for kk, old in d.items():
+                new = np.asarray(leaves[mi][kk], dtype=np.float32)
+                old = np.asarray(old, dtype=np.float32).reshape(new.shape)
+                keep = np.ones(new.shape, dtype=bool)
+                if (mi, kk) in ((0, "lp"), (0, "ent"), (1, "kernel")):
+                    keep.reshape(-1)[:n] = False  # rows of the batch
+                if (old[keep].tobytes() != new[keep].tobytes()):
+                    ok = False
+                    rep.violation(f"{EP}:moves:{c.groups[mi]}", f"update_ppo changed '{kk}' of the {c.groups[mi]} outside the parameters of the batch (no gradient reaches them) {ctx(j)}", info(j))
+        prev = [dict((kk, np.asarray(v, dtype=np.float32)) for kk, v in d.items()) for d in leaves]
+    return ok
+
+
+def epoch_classes(vec):
+    return {region_hist(vec, i)[:3] for i in range(vec["n"])}
+
+
+def evaluate_epochs(rep, vectors, stats, flat_every=2, flat_ns=(2,)):
+    """Replay every schedule: update_ppo(epochs=j) for j = 1..K from identical entry parameters (critic output shape (N,1), and
+    (N,) for every `flat_every`-th vector with a batch size in `flat_ns`; every (batch size, shape, j) is one compilation)."""
+    total = 0
+    for vi, vec in enumerate(vectors):
+        K = len(vec["hist"])
+        for vs in ("n1", "n") if vi % flat_every == 0 and vec["n"] in flat_ns else ("n1",):
+            c = realise_epochs(vec, (rep.seed, 1215, vi), vs)
+            try:
+                results = [run_epochs(c, j) for j in range(1, K + 1)]
+            except tlc.MachineryError:
+                raise
+            except Exception as ex:  # raised by the code under test
+                msg = f"{type(ex).__name__}: {str(ex).splitlines()[0][:200] if str(ex) else ''}"
+                if c.n == 1:
+                    stats["batch1"][f"update_ppo epochs {vs}"] = f"rejects batch size 1 loudly ({msg})"
+                    continue
+                stats["failed"].add(canon_ep(vec))
+                rep.violation("update_ppo:exception", f"update_ppo(epochs<={K}) raised {msg} where the specification defines a result (batch size {c.n})",
+                              {"vec": vec, "fill_seed": list(c.fill_seed), "vshape": vs, "level": "epochs", "traceback": traceback.format_exc()[-1500:]})
+                continue
+            total += K
+            stats["ep_runs"] += K
+            if not check_epochs(c, results, rep, stats):
+                stats["failed"].add(canon_ep(vec))
+        stats["ep_classes"] |= epoch_classes(vec)
+        for h in vec["hist"]:
+            stats["ep_clipped"] += sum(1 for x in h["fav"] if x)
+    return total
+
+
+def real_epochs(rep, vectors, stats, scale=1):
+    """The repository's own heads and networks (softmax over a shared MLP, Gaussian over per-state tables; rollouts that are
+    not all terminated): update_ppo(epochs=K) must equal the model's SCHEDULE executed with the real functions - advantages and
+    returns from the real compute_gae at entry, reference = entry log-probabilities, then K times one SGD step on the real
+    ppo_loss with that reference.  Both sides are real code; the schedule (how many steps, which reference each epoch uses,
+    what is estimated once) is ActorEpochs.tla's.  Same float32 operations on both sides; XLA may fuse them differently inside
+    the compiled update: a few ulp per operation on the ~10-operation path of a parameter, per epoch."""
+    rng = np.random.default_rng([rep.seed, 1218])
+    cand = {K: [v for v in vectors if v["n"] == 4 and len(v["hist"]) == K and any(fq(x) > 0 for x in seq(v["adv"])) and any(fq(x) < 0 for x in seq(v["adv"]))] for K in (2, 3)}
+    plan = [("softmax over a shared MLP", 3), ("Gaussian over per-state tables", 2)] * scale
+    count = 0
+    for head, K in plan:
+        seed = int(rng.integers(1 << 30))
+        pick = float(rng.random())
+        if not cand[K]:
+            continue
+        real_epochs_one(rep, head, cand[K][int(pick * len(cand[K]))], seed)
+        count += 1
+    stats["real"]["update_ppo over epochs (own heads)"] = count
+    return count
+
+
+def real_epochs_one(rep, head, vec, seed):
+    jax, jnp, nnx = _lazy()
+    from rl_blox.algorithm.ppo import ppo_loss, update_ppo
+    from rl_blox.blox.function_approximator import policy_head as PH
+    from rl_blox.blox.function_approximator.mlp import MLP
+    from rl_blox.blox.gae import compute_gae
+
+    from .. import stubs_actor as SA
+
+    ULP_STEP = 16  # per epoch, in ulp of the largest parameter / single step of the leaf
+    n, K = vec["n"], len(vec["hist"])
+    lra, lrc = fl(vec["par"]["lra"]), fl(vec["par"]["lrc"])
+
+    def make():
+        r = np.random.default_rng(seed)
+        if head.startswith("softmax"):
+            actor = PH.SoftmaxPolicy(MLP(3, 3, [8], "tanh", nnx.Rngs(seed)))
+            critic = MLP(3, 1, [8], "tanh", nnx.Rngs(seed + 1))
+            obs = jnp.asarray(r.normal(size=(n, 3)).astype(np.float32))
+            act = jnp.asarray(r.integers(0, 3, size=n))
+        else:
+            actor = PH.GaussianPolicy(SA.GaussTable(r.normal(size=(n + 1, 2)).astype(np.float32), r.normal(size=(n + 1, 2)).astype(np.float32)))
+            critic = SA.FlatTable(r.normal(size=(n + 1, 1)).astype(np.float32))
+            obs = jnp.asarray(stubs.onehot(np.arange(n), n + 1))
+            act = jnp.asarray(r.normal(size=(n, 2)).astype(np.float32))
+        term = jnp.asarray((np.arange(n) % 2).astype(np.float32))  # every second row ends an episode
+        nval = jnp.asarray(r.choice(FILL, size=n).astype(np.float32))
+        return actor, critic, obs, act, term, nval
+
+    reward = jnp.asarray(f32([fl(r["r"]) for r in vec["rows"]]))
+    actor, critic, obs, act, term, nval = make()
+    update_ppo(actor, critic, _sgd(actor, lra), _sgd(critic, lrc), obs, act, reward, term, nval, epochs=K)
+    # the schedule of the specification, executed with the real functions
+    ra, rc, _, _, _, _ = make()
+    oa, oc = _sgd(ra, lra), _sgd(rc, lrc)
+    gae = compute_gae(reward, rc(obs).reshape(-1), nval, term)  # Enter: estimated once, from the entry critic
+    entry_logp = ra.log_probability(obs, act)  # Enter: the reference
+    grad_fn = nnx.value_and_grad(ppo_loss, argnums=(0, 1))
+    scale = {}  # per leaf: the largest parameter and the largest single step seen along the schedule
+
+    def track(before):
+        now = {"actor": leafdict(nnx.state(ra, nnx.Param)), "critic": leafdict(nnx.state(rc, nnx.Param))}
+        for g_, d in now.items():
+            for kk, v in d.items():
+                m = float(np.max(np.abs(v)))
+                if before is not None:
+                    m = max(m, float(np.max(np.abs(v.astype(np.float64) - before[g_][kk]))))
+                scale[(g_, kk)] = max(scale.get((g_, kk), 0.0), m)
+        return now
+
+    state = track(None)
+    for h in vec["hist"]:
+        if h["refk"] != "entry":
+            raise tlc.MachineryError("ActorEpochs: the emitted schedule does not use the entry reference")
+        _, (ga, gc) = grad_fn(ra, rc, entry_logp, obs, act, gae.advantages, gae.returns)  # Epoch
+        oa.update(ra, ga)
+        oc.update(rc, gc)
+        state = track(state)
+    ratios = np.exp(np.asarray(ra.log_probability(obs, act) - entry_logp, dtype=np.float64))
+    for gname, m, rm in (("actor", actor, ra), ("critic", critic, rc)):
+        got, want = leafdict(nnx.state(m, nnx.Param)), leafdict(nnx.state(rm, nnx.Param))
+        for kk in want:
+            if not (np.all(np.isfinite(want[kk])) and math.isfinite(scale[(gname, kk)])):
+                continue  # the schedule itself overflows float32 with these networks: nothing to compare
+            tol = ULP_STEP * K * spacing32(scale[(gname, kk)])
+            dev = float(np.max(np.abs(got[kk].astype(np.float64) - want[kk].astype(np.float64))))
+            if not dev <= tol:
+                rep.violation(f"{EP}:real:{gname}", f"update_ppo(epochs={K}) with the repository's own networks ({head}; batch size {n}, SGD lr actor {lra} critic {lrc}) leaves the {gname} parameter '{kk}' "
+                              f"{dev!r} away from {K} SGD steps on ppo_loss with the ENTRY log-probabilities as reference and advantages / returns estimated once at entry (tolerance {tol!r}); "
+                              f"final ratios to the entry policy {ratios.round(4).tolist()}, advantages {np.asarray(gae.advantages).round(4).tolist()}",
+                              {"vec": vec, "level": "real_epochs", "head": head, "scenario_seed": seed})
+                break
+
+
+def canon_ep(vec):
+    return json.dumps(["ppoep", vec["n"], vec["par"], vec["rows"]], sort_keys=True)
+
+
+EP_REQUIRED = {"1AA", "1BB", "1uA", "1dB", "1uu", "1dd", "111"}
+
+
+def epochs_binding_canary(rep, vectors, failed):
+    """(1) a recorded state in which a clipped sample moved in epoch 2, (2) a corrupted coefficient of the schedule: both must be noticed."""
+    from ..report import Report
+
+    v = next((v for v in vectors if v["n"] == 2 and len(v["hist"]) >= 2 and canon_ep(v) not in failed and any(v["hist"][1]["fav"])), None)
+    if v is None:
+        if failed:
+            return
+        raise tlc.MachineryError("epochs binding canary: no schedule with a clipped sample in epoch 2")
+    c = realise_epochs(v, (rep.seed, 1216, 0), "n1")
+    K = len(v["hist"])
+    results = [run_epochs(c, j) for j in range(1, K + 1)]
+    i = [x for x in range(2) if v["hist"][1]["fav"][x]][0]
+    bad = [(l, [dict(d) for d in lv]) for l, lv in results]
+    lp = np.array(bad[1][1][0]["lp"], dtype=np.float32)
+    lp[i] += np.float32(fl(seq(v["hist"][0]["c"])[i]))  # the clipped sample takes the step of epoch 1 once more
+    bad[1][1][0]["lp"] = lp
+    scratch = Report("C12", rep.tier, rep.seed)
+    check_epochs(c, bad, scratch, new_stats(), probe=False)
+    if EP_CLIPPED_KEY not in [x["key"] for x in scratch.violations]:
+        raise tlc.MachineryError(f"epochs binding canary: a clipped sample that moved was not noticed; got {[x['key'] for x in scratch.violations]}")
+    v2 = next((u for u in vectors if u["n"] == 2 and len(u["hist"]) >= 2 and canon_ep(u) not in failed and any(u["hist"][1]["expo"])), None)
+    if v2 is None:
+        if failed:
+            return
+        raise tlc.MachineryError("epochs binding canary: no schedule with a step at a ratio other than 1")
+    b = json.loads(json.dumps(v2))
+    i = [x for x in range(2) if b["hist"][1]["expo"][x]][0]
+    q = fq(seq(b["hist"][1]["c"])[i]) * Fraction(17, 16)
+    b["hist"][1]["c"][i] = [q.numerator, q.denominator]
+    b["hist"] = b["hist"][:2]
+    b["hist"][1]["after"][i]["lo"] -= 4096
+    b["hist"][1]["after"][i]["hi"] += 4096
+    c2 = realise_epochs(b, (rep.seed, 1216, 1), "n1")
+    scratch = Report("C12", rep.tier, rep.seed)
+    check_epochs(c2, [run_epochs(c2, j) for j in (1, 2)], scratch, new_stats(), probe=False)
+    if f"{EP}:step:actor" not in [x["key"] for x in scratch.violations]:
+        raise tlc.MachineryError(f"epochs binding canary: a corrupted step coefficient was not noticed; got {[x['key'] for x in scratch.violations]}")
+
+
 # ----------------------------------------------------------------- canaries
 CANARIES = [
     ("pgsign", {"pg"}, "PGAscent"),
@@ -1193,11 +1601,24 @@ def run(rep):
     t0 = time.time()
     tm = {}
     tlc.sany("Actor")
+    tlc.sany("ActorEpochs")
     workers = int(os.environ.get("VERIF_TLC_WORKERS", "16"))
     base = dict(EMIT=False, Kinds=set(ALL_KINDS), NSet={1, 2}, LAT="small", DEV="")
     sims = [dict(NSet={2, 4}, LAT="full", num=700 if quick else 16000), dict(NSet={1, 3}, LAT="full", num=250 if quick else 6000)]
-    with ThreadPoolExecutor(max_workers=6 + len(sims)) as pool:
+    with ThreadPoolExecutor(max_workers=10 + len(sims)) as pool:
         can = spec_canaries(pool)
+        # 0. update_ppo over several epochs (ActorEpochs.tla): deviation canary, the small lattice exhaustively (invariants + schedules),
+        #    seeded random walks over the full lattice; thorough: the full lattice exhaustively for batch sizes 1 (with schedules) and 2
+        ep0 = dict(EMIT=True, NSet={2}, KSet={3}, LAT="small", DEV="")
+        f_epdev = pool.submit(tlc.run, "ActorEpochs", tlc.cfg_text(constants=dict(ep0, EMIT=False, KSet={2}, DEV="refresh"), invariants=["EpClippedZero"]), workers=1, tag="actorep-refresh")
+        f_epsmall = pool.submit(tlc.run, "ActorEpochs", tlc.cfg_text(constants=ep0, invariants=EP_INVS), workers=1, tag="actorep-small", timeout=1500)
+        eps = dict(ep0, NSet={1, 2, 4} if quick else {1, 2, 3, 4}, KSet={2, 3} if quick else {2, 3, 4}, LAT="full")
+        f_epsim = pool.submit(tlc.run, "ActorEpochs", tlc.cfg_text(constants=eps, invariants=EP_INVS), workers=1, simulate=f"num={60 if quick else 1200}", depth=14,
+                              seed=rep.seed * 7 + 5, tag="actorep-sim", timeout=1500)
+        f_epfull1 = f_epfull2 = None
+        if not quick:
+            f_epfull1 = pool.submit(tlc.run, "ActorEpochs", tlc.cfg_text(constants=dict(ep0, NSet={1}, KSet={2, 3, 4}, LAT="full"), invariants=EP_INVS), workers=1, tag="actorep-full1", timeout=3000)
+            f_epfull2 = pool.submit(tlc.run, "ActorEpochs", tlc.cfg_text(constants=dict(ep0, EMIT=False, LAT="full"), invariants=EP_INVS), workers=workers, tag="actorep-full2", timeout=3000)
         # 1. the relational clauses on the model, exhaustive over the small lattice
         f_inv = pool.submit(tlc.run, "Actor", tlc.cfg_text(constants=base, invariants=INVS), workers=workers, tag="actor-inv", timeout=1500)
         # 2. vectors: the same lattice exhaustively, and seeded random walks over the full lattice (invariants checked there too)
@@ -1223,6 +1644,14 @@ def run(rep):
         sim_res = [f.result() for f in f_sim]
         r3 = f_inv3.result() if f_inv3 is not None else None
         rf = f_full.result() if f_full is not None else None
+        epdev = f_epdev.result()
+        if epdev.violated != "EpClippedZero":
+            raise tlc.MachineryError(f"canary: a reference refreshed in every epoch is not refuted by EpClippedZero (got {epdev.violated})")
+        ep_res = [("ActorEpochs small lattice N=2, 3 epochs: invariants + schedules", f_epsmall.result()),
+                  ("ActorEpochs full lattice, random walks: invariants + schedules", f_epsim.result())]
+        if f_epfull1 is not None:
+            ep_res.append(("ActorEpochs full lattice N=1, 2-4 epochs: invariants + schedules", f_epfull1.result()))
+            ep_res.append(("ActorEpochs full lattice N=2, 3 epochs: invariants", f_epfull2.result()))
     rep.add_tlc(r, "Actor small lattice N in {1,2}: invariants")
     if not r.ok:
         rep.violation(f"spec:Actor:{r.violated}", f"design-level violation of {r.violated}", r.error_trace)
@@ -1257,6 +1686,26 @@ def run(rep):
     stats = new_stats()
     total = evaluate(rep, uniq, stats, upd_every=3 if quick else 1)
     tm["replay"] = round(time.time() - t0, 1)
+    # update_ppo over several epochs
+    ep_vecs, ep_seen = [], set()
+    for name, er in ep_res:
+        if "random walks" not in name:
+            rep.add_tlc(er, name)
+        if er.violated:
+            rep.violation(f"spec:ActorEpochs:{er.violated}", f"design-level violation of {er.violated} ({name})", er.error_trace)
+        for v in er.emitted:
+            kk = canon_ep(v)
+            if kk not in ep_seen:
+                ep_seen.add(kk)
+                ep_vecs.append(v)
+    if not quick and len(ep_vecs) > 1500:  # the exhaustive N=1 lattice is large: keep the small lattice and the walks, thin out the rest (seeded)
+        order = np.random.default_rng([rep.seed, 1217]).permutation(len(ep_vecs))
+        keep = set(order[:1500].tolist()) | set(range(len(ep_res[0][1].emitted)))
+        ep_vecs = [v for i, v in enumerate(ep_vecs) if i in keep]
+    total += evaluate_epochs(rep, ep_vecs, stats, flat_every=2, flat_ns=(2,) if quick else (1, 2, 3, 4))
+    if not EP_REQUIRED <= stats["ep_classes"]:
+        raise tlc.MachineryError(f"epoch schedules do not cover the region histories {sorted(EP_REQUIRED - stats['ep_classes'])}")
+    tm["epochs"] = round(time.time() - t0, 1)
     try:
         total += real_heads(rep, uniq, stats, scale=1 if quick else 4)
     except tlc.MachineryError:
@@ -1266,21 +1715,35 @@ def run(rep):
         if "/rl_blox/" not in tb:
             raise
         rep.violation("real_heads:exception", f"an objective raised {type(ex).__name__}: {str(ex).splitlines()[0][:200] if str(ex) else ''} with the repository's own policy head", {"vec": {}, "level": "real", "scenario": "exception", "seed": rep.seed, "traceback": tb[-2000:]})
+    try:
+        total += real_epochs(rep, ep_vecs, stats, scale=1 if quick else 4)
+    except tlc.MachineryError:
+        raise
+    except Exception as ex:
+        tb = traceback.format_exc()
+        if "/rl_blox/" not in tb:
+            raise
+        rep.violation("update_ppo:exception", f"update_ppo over several epochs raised {type(ex).__name__}: {str(ex).splitlines()[0][:200] if str(ex) else ''} with the repository's own networks",
+                      {"vec": {}, "level": "real_epochs", "seed": rep.seed, "traceback": tb[-2000:]})
     tm["real_heads"] = round(time.time() - t0, 1)
     binding_canary(rep, uniq, stats["failed"])
+    epochs_binding_canary(rep, ep_vecs, stats["failed"])
     tm["binding_canary"] = round(time.time() - t0, 1)
     rep.extra["cumulative_wall_s"] = tm
 
-    rep.traces = len(uniq)
+    rep.traces = len(uniq) + len(ep_vecs)
     rep.evaluations = total
-    rep.distinct = sum(1 for v in uniq if nontrivial(v))
+    rep.distinct = sum(1 for v in uniq if nontrivial(v)) + sum(1 for v in ep_vecs if any(any(h["fav"]) or any(h["expo"]) for h in v["hist"]))
     rep.exhaustive = False
     rep.rule = (
         "TLC enumerates every vector of Actor.tla's small lattice (11 objective kinds, batch size 1-2, curated dyadic values: weights / advantages of both signs and 0, "
         "ratios {1/4,3/4,1,5/4,2}, clip ranges {1/4,1/2}, critic slopes, ties of the two critics, temperature above / at / below target) and draws seeded random walks over the "
         "full lattice (batch size 1-4); each vector is a staged choice kind -> parameters -> rows; a vector is non-trivial when its expected objective or some per-sample "
         "coefficient is non-zero; every distinct vector is realised with stub modules (one parameter per sample) and replayed at function level with critic output shapes "
-        "(N,1) and (N,), and (kinds with an update function) through one SGD(lr=1) step of the real update"
+        "(N,1) and (N,), and (kinds with an update function) through one SGD(lr=1) step of the real update. ActorEpochs.tla: TLC enumerates update schedules "
+        "(batch size, SGD learning rates of actor and critic, 2-4 epochs, per-sample advantage / value / entropy; small lattice exhaustively, full lattice by seeded random "
+        "walks) and emits the expected state after every epoch; update_ppo(epochs=j) is run for j = 1..K from identical entry parameters and compared after every epoch; "
+        "a schedule is non-trivial when some sample is clipped on its favoured side or steps at a ratio other than 1"
     )
     for kind, pred in (("ppo", lambda v: len({json.dumps(r["ratio"]) for r in v["rows"]}) > 1 and all(fq(r["adv"]) != 0 for r in v["rows"])),
                        ("reinforce", lambda v: v["par"]["base"] and v["par"]["disc"]), ("sac", lambda v: fq(v["par"]["alpha"]) != 0), ("temp", lambda v: True)):
@@ -1292,12 +1755,23 @@ def run(rep):
         vectors_small_lattice=len(g.emitted), vectors_random_walks=sim_total, distinct_vectors=len(uniq), function_level_evaluations=stats["fn"],
         update_level_evaluations=stats["upd"], per_kind=stats["per_kind"], batch_size_1=stats["batch1"], ppo_samples_at_a_clip_edge=stats["kinks"],
         samples_with_tied_critics=stats["ties"], real_head_scenarios=stats["real"],
+        epoch_schedules=len(ep_vecs), update_ppo_runs_epochs=stats["ep_runs"], epoch_region_histories=sorted(stats["ep_classes"]),
+        clipped_sample_epochs=stats["ep_clipped"],
     )
+    ex = next((v for v in ep_vecs if v["n"] == 2 and {"1uA", "1BB"} <= {region_hist(v, 0), region_hist(v, 1)}), None)
+    if ex is not None:
+        rep.sample({"kind": "ppoep", "n": 2, "par": ex["par"], "rows": ex["rows"], "expected": {"adv": ex["adv"], "region": [h["region"] for h in ex["hist"]],
+                    "step_coefficient": [h["c"] for h in ex["hist"]], "clipped_on_favoured_side": [h["fav"] for h in ex["hist"]], "critic": [h["v"] for h in ex["hist"]]}}, cap=5)
     rep.assumptions += [
         "network forward passes are inputs: stub modules (bias-free linear maps on one-hot inputs, one parameter per sample) realise the outputs chosen by TLC",
         "values are decided on dyadic lattices only; with the repository's heads (softmax, Gaussian, tanh-Gaussian, deterministic tanh, ActorSALE) only gradient support and sign",
         "at a clip edge of PPO / a tie of the two critics any value between the one-sided derivatives is accepted",
         "GAE inside update_ppo only with all rows terminated (advantage = reward - value); update gradients observed through SGD(lr=1) steps",
+        "update_ppo over epochs: per-sample table policy (no parameter sharing between samples), plain SGD, clip range 0.2 (the default update_ppo uses), 1-4 epochs, ratios whose "
+        "logarithm is within 0.0005 of log(0.8) / log(1.2) are excluded from the lattice; steps at a ratio other than 1 are linear forms c * exp(log ratio) with c from TLC and exp evaluated "
+        "in Python inside TLC's enclosure",
+        "update_ppo over epochs with the repository's own networks (softmax over a shared MLP, Gaussian over tables, rollouts not all terminated): the expectation is ActorEpochs.tla's "
+        "schedule executed with the real compute_gae / ppo_loss / optimiser (both sides real code), compared within 16 ulp per epoch of the largest parameter or step",
         "update_critic_and_policy (MR.Q) is not driven; mrq_policy_loss is checked as a function",
         "trusted: harness/stubs.py, harness/stubs_actor.py, realisation code in c12.py, Exact.tla, TLC",
     ]
@@ -1311,7 +1785,30 @@ def replay(path, rep):
         return 1
     vec = info["vec"]
     stats = new_stats()
-    if info.get("level") == "real":
+    if info.get("level") == "real_epochs":
+        if "scenario_seed" not in info:
+            print("update_ppo raised with the repository's own networks:\n", info.get("traceback"))
+            return 1
+        print(f"update_ppo(epochs={len(vec['hist'])}) with the repository's own networks ({info['head']}), schedule par={vec['par']}")
+        real_epochs_one(rep, info["head"], vec, int(info["scenario_seed"]))
+    elif info.get("level") == "epochs":
+        c = realise_epochs(vec, tuple(info["fill_seed"]), info.get("vshape", "n1"))
+        K = len(vec["hist"])
+        print(f"update_ppo over {K} epochs: n={vec['n']} par={vec['par']} rows={json.dumps(vec['rows'])} critic output shape={'(N,)' if c.vshape == 'n' else '(N,1)'}")
+        print("expected region of each sample per epoch (TLC):", [region_hist(vec, i) for i in range(vec["n"])], "step coefficients:", [h["c"] for h in vec["hist"]])
+        try:
+            results = [run_epochs(c, j) for j in range(1, K + 1)]
+        except Exception as ex:
+            print("code under test raised:", type(ex).__name__, str(ex)[:300])
+            if vec["n"] == 1:
+                return 0
+            print("VIOLATION property=C12 replay=" + path)
+            return 1
+        lp0 = np.asarray(c.leaves[0]["lp"], dtype=np.float64)[: vec["n"]]
+        for j, (loss, lv) in enumerate(results, start=1):
+            print(f"after {j} epoch(s): loss {float(loss)!r}, log pi - log pi_0 = {(np.asarray(lv[0]['lp'], dtype=np.float64)[: vec['n']] - lp0).tolist()}, critic {np.asarray(lv[1]['kernel']).reshape(-1)[: vec['n']].tolist()}")
+        check_epochs(c, results, rep, stats)
+    elif info.get("level") == "real":
         print("scenario with the repository's own head:", info.get("scenario"), "- re-running all real-head scenarios with seed", info.get("seed"))
         tlc.sany("Actor")
         g = tlc.run("Actor", tlc.cfg_text(constants=dict(EMIT=True, Kinds=set(ALL_KINDS), NSet={2}, LAT="small", DEV="")), workers=1, tag="actor-replay")
